@@ -9,8 +9,10 @@
 (*                                                                         *)
 (* Grain: one action per statement of TaskRunner.run / handle_error /       *)
 (* cleanup that another process or a signal can observe.  The Python-level  *)
-(* signal handler (handle_error) runs to completion in one step: at most    *)
-(* one signal is delivered to each process.                                 *)
+(* signal handler (handle_error) runs to completion in one step (at most    *)
+(* one signal is delivered to each process); the second handle_error that   *)
+(* `except SystemExit` runs afterwards is a step of its own, because it      *)
+(* writes the failure marker after the run lock has been released.           *)
 (***************************************************************************)
 EXTENDS Naturals, Integers, Sequences, FiniteSets, TLC
 
@@ -119,6 +121,9 @@ Step(p) ==
        [] pc[p] = "he_exit" ->  \* sys.exit(1) inside the except clause: propagates
             /\ ToAtexit(p, 1) /\ flags' = [flags EXCEPT ![p].ownEnd = (sig[p] = NONE)]
             /\ UNCHANGED <<done, failedm, pidf, lock, termH, intH, reg, cleaned, begins, ends>>
+       [] pc[p] = "he2_write" -> \* second handle_error(1) of a handled signal: write_text, cleanup() (nothing left), sys.exit(1)
+            /\ failedm' = TRUE /\ ToAtexit(p, 1)
+            /\ UNCHANGED <<done, pidf, lock, termH, intH, reg, cleaned, begins, ends, flags>>
        (* cleanup(), statement by statement *)
        [] pc[p] = "c0" ->       \* if not self.cleaned
             /\ IF cleaned[p] THEN Goto(p, ret[p]) ELSE Goto(p, "c1")
@@ -169,8 +174,14 @@ Handled(p) ==
              /\ pc' = [pc EXCEPT ![p] = "final"]
              /\ rc' \in {[rc EXCEPT ![p] = rc[p]], [rc EXCEPT ![p] = 1]}
              /\ UNCHANGED <<ctx, ret>>
-        ELSE (* sys.exit(1): caught by `except SystemExit` when inside the try body (second
-                handle_error(1): same effects), propagates otherwise; then interpreter exit *)
+        ELSE IF ctx[p] = "try"
+        THEN (* sys.exit(1) raised by the handler inside the try body is caught by `except SystemExit`, which
+                calls handle_error(1) again: the failure marker is written a second time, AFTER the run lock
+                was released by the first cleanup() -- another launch may have started in between *)
+             /\ pc' = [pc EXCEPT ![p] = "he2_write"]
+             /\ ctx' = [ctx EXCEPT ![p] = "exc"]
+             /\ UNCHANGED <<rc, ret>>
+        ELSE (* outside the try body sys.exit(1) propagates; then interpreter exit *)
              /\ rc' = [rc EXCEPT ![p] = 1]
              /\ ctx' = [ctx EXCEPT ![p] = "fin"]
              /\ IF reg[p] THEN /\ pc' = [pc EXCEPT ![p] = "c0"] /\ ret' = [ret EXCEPT ![p] = "final"]
